@@ -95,6 +95,7 @@ func runProc(c Case) (ret *retained, obs Obs, nontrivial bool) {
 	}
 	e := &el.Event{Type: el.EventType(ty), CreatedAt: tm, Payload: gv, Formatted: formatted}
 	snapBefore := jgen.Snapshot(gv)
+	errsBefore := jgen.ErrorsIn(gv) // error values must stay the very same values
 
 	predErr := false
 	predRes := func() (bool, error) {
@@ -153,7 +154,7 @@ func runProc(c Case) (ret *retained, obs Obs, nontrivial bool) {
 	default:
 		obs.Out = 2
 	}
-	obs.Frame = string(e.Type) == string(ty) && e.CreatedAt.Equal(tm) && e.CreatedAt.Location() == tm.Location() && jgen.Snapshot(e.Payload) == snapBefore
+	obs.Frame = string(e.Type) == string(ty) && e.CreatedAt.Equal(tm) && e.CreatedAt.Location() == tm.Location() && jgen.Snapshot(e.Payload) == snapBefore && jgen.SameErrors(errsBefore, jgen.ErrorsIn(e.Payload))
 	obs.Table = map[string]string{}
 	for k, v := range e.Formatted {
 		obs.Table[k] = hex.EncodeToString(v)
@@ -484,6 +485,28 @@ func genGrid(em *emitter) {
 					}
 				}
 			}
+		}
+	}
+}
+
+// every value encoding/json renders specially (errors of every flavour, Stringer, time.Time, Duration, RawMessage, big.Int,
+// pointer to pointer, typed nils, extreme floats): as the payload itself, as a top-level value of a map payload, nested in a
+// slice inside a map, in a struct field (interface-typed and concretely typed), for both formatters
+func genSpecials(em *emitter) {
+	hexs := func(s string) string { return hex.EncodeToString([]byte(s)) }
+	for i, k := range jgen.SpecialKinds {
+		sp := &jgen.Recipe{K: "special", V: k}
+		shapes := []*jgen.Recipe{
+			sp,
+			{K: "map", Ks: []string{hexs("err"), hexs("n")}, E: []*jgen.Recipe{sp, {K: "int", T: "int", V: "1"}}},
+			{K: "map", Ks: []string{hexs("l")}, E: []*jgen.Recipe{{K: "arr", E: []*jgen.Recipe{{K: "str", V: hexs("x")}, sp}}}},
+			{K: "map", T: "named", Ks: []string{hexs("inner")}, E: []*jgen.Recipe{{K: "map", Ks: []string{hexs("e")}, E: []*jgen.Recipe{sp}}}},
+			{K: "struct", Ks: []string{"v", "w"}, Opt: []string{"", "typed"}, E: []*jgen.Recipe{sp, sp}},
+			{K: "arr", T: "ptr", E: []*jgen.Recipe{sp, sp}},
+		}
+		for j, pl := range shapes {
+			em.emit(Case{Gen: "specials", Kind: "proc", Node: []string{"formatter", "jff"}[(i+j)%2], Pred: 0, Type: hexs("t"), Time: jgen.Times[2], Payload: pl,
+				NilTab: j%2 == 0})
 		}
 	}
 }
@@ -820,6 +843,7 @@ func main() {
 			genGrid(em)
 		case "strings":
 			genStrings(em)
+			genSpecials(em)
 		case "random":
 			genProc(em, r.Fork(), *nRandom, *depth, *unenc)
 		case "table":
